@@ -90,7 +90,8 @@ HrefEnc(sq) == IF sq = << >> THEN ""
                     \o HrefEnc(Tail(sq))
 RECURSIVE AttrEsc(_)
 AttrEsc(t) == IF t = "" THEN "" ELSE LET c == SubSeq(t, 1, 1) IN
-              (CASE c = "&" -> "&amp;" [] c = "<" -> "&lt;" [] c = ">" -> "&gt;" [] c = "\"" -> "&quot;" [] OTHER -> c) \o AttrEsc(SubSeq(t, 2, Len(t)))
+              (CASE c = "&" -> "&amp;" [] c = "<" -> "&lt;" [] c = ">" -> "&gt;" [] c = "\"" -> "&quot;" [] c = "'" -> "&#x27;" [] OTHER -> c) \o AttrEsc(SubSeq(t, 2, Len(t)))
+              \* (how an apostrophe is spelled inside an attribute value is the implementation's choice)
 TextOf(sq) == IF sq = << >> THEN "" ELSE RenderToks(sq, Scan(sq), [i \in 1..Len(sq) |-> i])     \* ordinary text (no emphasis delimiters in these alphabets)
 
 Full == Prefix \o raw
